@@ -75,6 +75,17 @@ def cases(ctx):
                 n_fail = failures if who == "one-node" else 2 * failures
                 yield {"version": version, "fail19": list(range(n_fail)), "fault_class": FAULT_CLASSES[failures % len(FAULT_CLASSES)],
                        "steps": PRE + [["rx", line + "\n"] for line in lines]}
+    # long episodes: one node keeps sending rejected messages (several kinds) and never presents itself - ONE request, however
+    # many messages follow (counters that start a retry after the n-th message: n from the usual round numbers and from
+    # the numeric constants of the code under test, vf.codedict)
+    for version in VERSIONS[2:]:
+        for length in codedict.thresholds([300, 1100], low=50, cap=ctx.pick(2600, 12000)):
+            if length % 2 and length > 400 and not ctx.mine():
+                continue
+            if length <= 400 and not ctx.mine():
+                continue
+            lines = [SYMBOLS[0] if i % 3 else f"{U1};255;3;0;0;{i % 100}" for i in range(length + 2)]
+            yield {"version": version, "steps": PRE + [["rx", line + "\n"] for line in lines]}
     # every message kind of the active protocol from an unknown node (all internal / stream / presentation / value type
     # numbers incl. the ones only the newest protocol has and out-of-range ones), twice, then after it presented itself:
     # WHICH kinds are rejected for a missing node is the implementation's business, but every such rejection must ask
